@@ -7,6 +7,7 @@ import (
 	"net"
 	"os"
 	"path/filepath"
+	"regexp"
 	"sync"
 	"testing"
 	"time"
@@ -53,6 +54,8 @@ type wireSub struct {
 	mu   sync.Mutex
 	buf  []state.Event
 	done bool // errored
+	// selective: a subscriber with a selector may legitimately see nothing of what is written after an outage
+	selective bool
 }
 
 func realWireRound(t *testing.T, tr *vh.Trace, tid string, rng *rand.Rand) {
@@ -103,6 +106,11 @@ func realWireRound(t *testing.T, tr *vh.Trace, tid string, rng *rand.Rand) {
 
 	emit := func(l Line) {
 		l.Tid = tid
+
+		if l.Idq == nil {
+			l.Idq = []int{}
+		}
+
 		tr.Emit(l)
 	}
 
@@ -199,8 +207,8 @@ func realWireRound(t *testing.T, tr *vh.Trace, tid string, rng *rand.Rand) {
 		}()
 	}
 
-	add := func(kindName, mode string, id int, filt bool) {
-		s := &wireSub{w: len(subs) + 1, kind: kindName, id: id}
+	add := func(kindName, mode string, id int, filt bool, idq ...int) {
+		s := &wireSub{w: len(subs) + 1, kind: kindName, id: id, selective: filt || len(idq) > 0}
 		ch := make(chan state.Event)
 		agg := make(chan []state.Event)
 
@@ -220,6 +228,20 @@ func realWireRound(t *testing.T, tr *vh.Trace, tid string, rng *rand.Rand) {
 				opts = append(opts, state.WatchWithLabelQuery(resource.LabelEqual("l", "x")))
 			}
 
+			if len(idq) > 0 { // an ID selector matching exactly the ids idq (anchored alternation)
+				re := "^("
+
+				for i, x := range idq {
+					if i > 0 {
+						re += "|"
+					}
+
+					re += regexp.QuoteMeta(idNames[x])
+				}
+
+				opts = append(opts, state.WatchWithIDQuery(resource.IDRegexpMatch(regexp.MustCompile(re+")$"))))
+			}
+
 			if kindName == "agg" {
 				serr = adapter.WatchKindAggregated(ctx, kind, agg, opts...)
 			} else {
@@ -231,7 +253,7 @@ func realWireRound(t *testing.T, tr *vh.Trace, tid string, rng *rand.Rand) {
 			t.Fatalf("watch: %v", serr)
 		}
 
-		emit(Line{Ev: "start", W: s.w, Kind: kindName, ID: id, Filt: filt, Mode: mode, Bm: "pos", Res: "ok", Remote: true, Retry: true})
+		emit(Line{Ev: "start", W: s.w, Kind: kindName, ID: id, Filt: filt, Mode: mode, Bm: "pos", Res: "ok", Remote: true, Retry: true, Idq: idq})
 		collect(s, ch, agg)
 
 		subs = append(subs, s)
@@ -241,6 +263,9 @@ func realWireRound(t *testing.T, tr *vh.Trace, tid string, rng *rand.Rand) {
 	add("all", "bootstrap", 0, rng.Intn(2) == 0)
 	add("agg", "bootstrap", 0, false)
 	add("one", "default", 1+rng.Intn(3), false)
+	// selectors that have to survive the re-establishment of the watch: an ID selector, alone and together with a label selector
+	add("all", "default", 0, false, 1, 3)
+	add("agg", "bootstrap", 0, rng.Intn(2) == 0, 2)
 
 	flush := func() {
 		for _, s := range subs {
@@ -346,7 +371,7 @@ func settleAfterOutage(subs []*wireSub, limit time.Duration) {
 			s.mu.Lock()
 			n += len(s.buf)
 
-			if !s.done && len(s.buf) == base[i] && s.kind != "one" {
+			if !s.done && len(s.buf) == base[i] && s.kind != "one" && !s.selective {
 				all = false
 			}
 			s.mu.Unlock()
